@@ -3,6 +3,7 @@
 //! the implementation's observable outcome.
 extern crate anoncreds;
 
+mod c12d;
 mod c13;
 mod c09;
 mod c16;
